@@ -11,8 +11,9 @@ ITER_METHODS = {'map', 'for_each', 'try_for_each', 'flat_map', 'filter_map', 'al
 
 
 class Grammar:
-    def __init__(self, F, side):
+    def __init__(self, F, side, shallow=False):
         self.F = F
+        self.shallow = shallow
         self.side = side                      # 'read' or 'write'
         self.prefix = side + '_'
         self.trait = 'plonky2::util::serialization::' + ('Read' if side == 'read' else 'Write')
@@ -37,6 +38,8 @@ class Grammar:
 
     def expand(self, name):
         """grammar of the trait method `name` (e.g. read_usize), fully expanded"""
+        if self.shallow:
+            return [('p', name[len(self.prefix):] if name.startswith(self.prefix) else name)]
         if name in self.memo:
             return self.memo[name]
         if name in self.active:
@@ -127,6 +130,12 @@ class Grammar:
             b = []
             if 'el' in n:
                 self._walk(n['el'], b)
+            if not a and error_only(n['th']):
+                out.extend(b)
+                return
+            if 'el' in n and not b and error_only(n['el']):
+                out.extend(a)
+                return
             if a or b:
                 out.append(('alt', [a, b]))
             return
@@ -138,6 +147,8 @@ class Grammar:
                 if 'g' in arm:
                     self._walk(arm['g'], x)
                 self._walk(arm['b'], x)
+                if not x and error_only(arm['b']):
+                    continue          # `_ => Err(..)` / panic arm: rejects, consumes nothing
                 arms.append(x)
             if any(arms):
                 if len(arms) == 1:
@@ -153,6 +164,37 @@ class Grammar:
             return
         for c in kids(n):
             self._walk(c, out)
+
+
+def error_only(n):
+    """expression that only reports an error (Err(..) value, return Err, panic)"""
+    from .flow import tail_is_err, diverges_with_err, panics
+    return tail_is_err(n) or diverges_with_err(n) or panics(n)
+
+
+def collapse_runs(g):
+    """k >= 2 adjacent identical blocks of >= 2 elements become a loop (fixed repetition == loop shape)"""
+    g = [(x[0], collapse_runs(x[1])) if x[0] == 'loop' else (x[0], [collapse_runs(a) for a in x[1]]) if x[0] == 'alt' else x for x in g]
+    out = []
+    i = 0
+    n = len(g)
+    while i < n:
+        done = False
+        for L in range(2, min(8, (n - i) // 2) + 1):
+            blk = g[i:i + L]
+            k = 1
+            while g[i + k * L:i + (k + 1) * L] == blk:
+                k += 1
+            if k >= 2:
+                out.append(('loop', blk))
+                i += k * L
+                done = True
+                break
+        if not done:
+            out.append(g[i])
+            i += 1
+    # ((X)*)* produced by collapsing stays as is
+    return out
 
 
 def has_ret(n):
